@@ -358,18 +358,35 @@ var (
 
 func genConstraint() *rapid.Generator[string] {
 	return rapid.Custom(func(t *rapid.T) string {
-		switch rapid.IntRange(0, 9).Draw(t, "ckind") {
+		switch rapid.IntRange(0, 19).Draw(t, "ckind") {
 		case 0, 1:
 			return rapid.SampledFrom(genSpecial).Draw(t, "special")
-		case 2:
+		case 2, 3, 4:
 			a := rapid.SampledFrom(semverCores).Draw(t, "lo")
 			b := rapid.SampledFrom(semverCores).Draw(t, "hi")
 			return ">=" + a + ", <" + b
+		case 5:
+			return rapid.SampledFrom([]string{"*", ">=0.0.0", ">=0.0.0-0", "x", ">=1.0.0-0"}).Draw(t, "any")
+		case 6:
+			return rapid.SampledFrom(genVersions[len(genVersions)-2:]).Draw(t, "digest")
 		default:
 			return rapid.SampledFrom(genOps).Draw(t, "op") + rapid.SampledFrom(semverCores).Draw(t, "cv")
 		}
 	})
 }
+
+// genVersion: mostly semantic versions (with v prefixes, short forms and
+// prereleases), sometimes floating tags or digests.
+func genVersion() *rapid.Generator[string] {
+	return rapid.Custom(func(t *rapid.T) string {
+		if rapid.IntRange(0, 9).Draw(t, "odd") == 0 {
+			return rapid.SampledFrom(genVersions).Draw(t, "oddver")
+		}
+		return rapid.SampledFrom(semverTags).Draw(t, "semver")
+	})
+}
+
+var semverTags = []string{"0.9.0", "1.0.0", "v1.0.0", "1.1.0", "1.2.3", "v1.2.3", "1.5.0", "v1.5.0", "2.0.0", "v2.0.0", "2.1.0", "3.0.0", "1.0.0-rc.1", "2.0.0-alpha", "1.2", "v1"}
 
 func genGraph(maxN int) *rapid.Generator[gcase] {
 	return rapid.Custom(func(t *rapid.T) gcase {
@@ -382,7 +399,7 @@ func genGraph(maxN int) *rapid.Generator[gcase] {
 				continue
 			}
 			c.Order = append(c.Order, u)
-			c.Vers[u] = rapid.SampledFrom(genVersions).Draw(t, "ver")
+			c.Vers[u] = genVersion().Draw(t, "ver")
 			nd := rapid.IntRange(0, 1+dense).Draw(t, "ndeps")
 			for k := 0; k < nd; k++ {
 				var v int
